@@ -43,21 +43,22 @@ let rec stmt = function
   | x -> failwith ("rp: bad stmt " ^ to_string x)
 
 type rpcase = {
-  strict : bool; na : bool; onpanic : hop list option; onerror : hop list option;
+  strict : bool; na : bool; twin : bool; onpanic : hop list option; onerror : hop list option;
   stmts : stmt list; hs : (int * hop list) list;
   reqs : (n list * n list * nat list) list;   (* method, path, script *)
 }
 
 let parse_case = function
   | L [A "rp"; L opts; L ss; L hs; L reqs] ->
-    let strict = ref false and na = ref false and onp = ref None and one = ref None in
+    let strict = ref false and na = ref false and twin = ref false and onp = ref None and one = ref None in
     List.iter (function
         | L [A "na"] -> na := true
         | L [A "strict"] -> strict := true
+        | L [A "twin"] -> twin := true
         | L [A "onpanic"; L ops] -> onp := Some (List.map hop ops)
         | L [A "onerror"; L ops] -> one := Some (List.map hop ops)
         | x -> failwith ("rp: bad option " ^ to_string x)) opts;
-    { strict = !strict; na = !na; onpanic = !onp; onerror = !one;
+    { strict = !strict; na = !na; twin = !twin; onpanic = !onp; onerror = !one;
       stmts = List.map stmt ss;
       hs = List.map (function L [id; L ops] -> (int id, List.map hop ops) | x -> failwith ("rp: bad handler " ^ to_string x)) hs;
       reqs = List.map (function L [m; p; L sc] -> (str m, str p, List.map nat sc) | x -> failwith ("rp: bad req " ^ to_string x)) reqs }
@@ -109,7 +110,7 @@ let run_model (c : rpcase) =
                  @ [L [A "scope"; sstr st.g_prefix; sint (List.length st.g_handlers); sint (List.length st.r_globals)]]) in
     let cfg = { globals = List.map (prog_of c) st.r_globals; on_panic = c.onpanic; on_error = c.onerror } in
     let pooled = ref fresh_ctx in
-    let reqs = List.map (fun (m, _p, sc) ->
+    let serve_all thread = List.map (fun (m, _p, sc) ->
         let target = match resolve c st.r_routes m _p with
           | RRoute r -> TRoute (List.map (prog_of c) r.r_handlers, prog_of c r.r_main, [], r.r_name, _p)
           | RNotFound -> TNotFound (List.map (prog_of c) st.r_noroute)
@@ -121,17 +122,19 @@ let run_model (c : rpcase) =
           | Escaped (p, x, _) -> (Some x, spval p)
           | OutOfFuel -> (None, A "fuel") in
         (match out, x with
-         | Done _, Some x -> pooled := { p_index = z_of_int 0; p_handlers = []; p_x = x }
+         | Done _, Some x when thread -> pooled := { p_index = z_of_int 0; p_handlers = []; p_x = x }
          | _ -> ());
         match x with
         | Some x -> L [A "req"; L (A "trace" :: List.map stev x.trace); L (A "log" :: List.map swev x.w.log); L [A "esc"; esc]]
         | None -> L [A "req"; L [A "trace"]; L [A "log"]; L [A "esc"; esc]]) c.reqs in
-    Some (reg, L (A "reqs" :: reqs), st)
+    let reqs = serve_all true in
+    let fresh = (pooled := fresh_ctx; serve_all false) in
+    Some (reg, L (A "reqs" :: reqs), L (A "fresh" :: fresh), st)
 
 let model c =
   match run_model (parse_case c) with
   | None -> L [A "regpanic"]
-  | Some (reg, reqs, _) -> L [reg; reqs]
+  | Some (reg, reqs, fresh, _) -> if (parse_case c).twin then L [reg; reqs; fresh] else L [reg; reqs]
 
 (* ---------- spec side ---------- *)
 (* top-level Use statements are global middleware (Use inside a group is group-local) *)
@@ -157,7 +160,8 @@ let wb_of (ops : hop list) =
 let events_of_effs effs = List.concat (List.map (function EEv t -> [L [A "e"; snat t]] | _ -> []) effs)
 let impl_events tr = List.filter (function L [A "e"; _] -> true | _ -> false) tr
 
-let get_reqs obs = match obs with L [_; L (A "reqs" :: rs)] -> rs | _ -> failwith "no reqs"
+let get_reqs obs = match obs with L (_ :: L (A "reqs" :: rs) :: _) -> rs | _ -> failwith "no reqs"
+let get_fresh obs = match obs with L [_; _; L (A "fresh" :: rs)] -> rs | _ -> failwith "no fresh"
 let req_parts = function
   | L [A "req"; L (A "trace" :: tr); L (A "log" :: lg); L [A "esc"; e]] -> (tr, lg, e)
   | x -> failwith ("bad req obs " ^ to_string x)
@@ -177,7 +181,7 @@ let judge_reg c obs =
   match obs with
   | L [A "regpanic"] ->
     if List.exists (fun r -> List.length r.r_handlers >= 63) routes then "ok" else "bad regpanic registration panicked although every route has fewer than 63 handlers"
-  | L [L (A "reg" :: items); _] ->
+  | L (L (A "reg" :: items) :: _) ->
     let exp = List.map (fun r -> L [A "route"; sstr r.r_path; sint (List.length r.r_handlers)]) routes
               @ [L [A "scope"; sstr []; sint 0; sint (List.length (den_globals c.stmts))]] in
     let rec cmp i a b = match a, b with
@@ -270,7 +274,7 @@ let c05_judge cs obs =
           else begin
             (* status clause: compare the committed status with the model's *)
             match run_model c with
-            | Some (_, L (A "reqs" :: mr :: _), _) ->
+            | Some (_, L (A "reqs" :: mr :: _), _, _) ->
               let (mtr, mlg, _) = req_parts mr in
               let wh l = List.filter (function L [A "wh"; _] -> true | _ -> false) l in
               if to_string (L mtr) = to_string (L tr) && to_string (L (wh mlg)) <> to_string (L (wh lg))
@@ -278,3 +282,70 @@ let c05_judge cs obs =
             | _ -> "ok"
           end
         end
+
+(* ---------- C09 / C10: twin oracle (the k-th request must look like the first request of a fresh router) ---------- *)
+let first_diff_field a b =
+  (* which part of the first differing snapshot / observation differs *)
+  let (ta, la, ea) = req_parts a and (tb, lb, eb) = req_parts b in
+  let snaps t = List.filter (function L (A "snap" :: _) -> true | _ -> false) t in
+  let names = ["data"; "params"; "errors"; "status"; "length"; "resp"; "req"] in
+  let rec fields i xs ys = match xs, ys with
+    | x :: xs', y :: ys' -> if to_string x <> to_string y then List.nth names i else fields (i + 1) xs' ys'
+    | _ -> "shape" in
+  match snaps ta, snaps tb with
+  | L (_ :: fa) :: _, L (_ :: fb) :: _ when to_string (L fa) <> to_string (L fb) -> "stale-" ^ fields 0 fa fb
+  | _ ->
+    if to_string (L (List.filter (function L [A "ab"; _] -> true | _ -> false) ta)) <> to_string (L (List.filter (function L [A "ab"; _] -> true | _ -> false) tb)) then "stale-aborted"
+    else if to_string (L ta) <> to_string (L tb) then "trace-differs"
+    else if to_string (L la) <> to_string (L lb) then "response-differs"
+    else if to_string ea <> to_string eb then "escape-differs" else "same"
+
+let twin_judge obs =
+  let rs = get_reqs obs and fs = get_fresh obs in
+  let rec go k rs fs = match rs, fs with
+    | [], [] -> "ok"
+    | r :: rs', f :: fs' ->
+      if to_string r = to_string f then go (k + 1) rs' fs'
+      else "bad " ^ first_diff_field r f ^ " request=" ^ string_of_int k ^ " got=" ^ to_string r ^ " fresh=" ^ to_string f
+    | _ -> "bad request-count" in
+  go 0 rs fs
+
+let c10_judge _cs obs = match obs with L [A "regpanic"] -> "ok" | _ -> twin_judge obs
+
+(* C09: request 0 panics at the op after the marker event (8000 + id), value = id *)
+let c09_judge cs obs =
+  let c = parse_case cs in
+  match obs with
+  | L [A "regpanic"] -> "ok"
+  | _ ->
+    let r0 = List.hd (get_reqs obs) in
+    let (tr, lg, esc) = req_parts r0 in
+    let ev_id = function L [A "e"; A x] -> Some (int_of_string x) | _ -> None in
+    let rec split acc = function
+      | [] -> (List.rev acc, None, [])
+      | x :: r -> (match ev_id x with Some v when v >= 8000 && v < 9000 -> (List.rev acc, Some (v - 8000), r) | _ -> split (x :: acc) r) in
+    let (_before, marker, after) = split [] tr in
+    let hook_panics = match c.onpanic with Some ops -> List.exists (function OPanic _ -> true | _ -> false) ops | None -> false in
+    let verdict = match marker with
+      | None -> "ok"     (* the panic position was not reached (e.g. an earlier handler did not call Next) *)
+      | Some v ->
+        (match c.onpanic with
+         | None -> if to_string esc = to_string (L [A "p"; sint v]) then "ok" else "bad panic-not-propagated esc=" ^ to_string esc
+         | Some _ when hook_panics -> if to_string esc = "none" then "bad hook-panic-swallowed" else "ok"
+         | Some _ ->
+           let hooks = List.length (List.filter (fun x -> ev_id x = Some 7777) after) in
+           let others = List.filter (fun x -> match ev_id x with Some e -> e <> 7777 | None -> false) after in
+           let rec_ok = List.exists (function
+               | L (A "snap" :: L data :: _) -> List.exists (fun kv -> to_string kv = to_string (L [sstr k_recover; L [A "p"; sint v]])) data
+               | _ -> false) after in
+           let nwh = List.length (List.filter (function L [A "wh"; _] -> true | _ -> false) lg) in
+           if to_string esc <> "none" then "bad panic-escaped-with-hook esc=" ^ to_string esc
+           else if hooks <> 1 then "bad hook-count n=" ^ string_of_int hooks
+           else if others <> [] then "bad handler-after-panic events=" ^ to_string (L others)
+           else if not rec_ok then "bad recover-result-missing"
+           else if nwh <> 1 then "bad commit-count n=" ^ string_of_int nwh
+           else "ok") in
+    if verdict <> "ok" then verdict else
+      (match twin_judge obs with
+       | "ok" -> "ok"
+       | s -> (match String.split_on_char ' ' s with _ :: sg :: rest -> "bad follow-up-" ^ sg ^ " " ^ String.concat " " rest | _ -> s))
